@@ -54,9 +54,25 @@ def Appendable (c : Cfg) : Prop :=
       let w2 := cSync c mk w1.1
       recover c ((d.applyAll w1.2).applyAll w2.2) = Index.replay (recover c d) (items.map (·.1))
 
-/-- The full-strength statement. -/
+/-- Clause 1b (nothing that reached the disk is thrown away): every whole-block prefix of the
+    written file that is contained in the crash image is recovered — the loader stops only at the
+    torn part.  For a plain process death (no power loss) the image contains every completed write,
+    so every completely written block is recovered, synced or not. -/
+def Maximal (c : Cfg) : Prop :=
+  ∀ (mk : Mk), MkOk mk → ∀ (nl bs : Nat) (acts : List Act) (i j k : Nat),
+    CrashPoint (runActs c mk nl bs acts).ops i j →
+    (runActs c mk nl bs acts).d.main = none ∨
+    ∃ blocks, (runActs c mk nl bs acts).d.main = some (fileCells nl blocks) ∧
+      ∀ g, (afterLoad c (lossyImageAt {} (runActs c mk nl bs acts).ops i j k)).main = some g →
+      ∀ sb, sb <+: blocks → fileCells nl sb <+: g →
+        ∃ es, recover c (afterLoad c (lossyImageAt {} (runActs c mk nl bs acts).ops i j k)) = Index.replay [] es ∧
+          entsOf sb <+: es
+
+/-- The full-strength statement.  (Histories are chronicler sessions from an empty directory
+    without compaction; a second crash during the recovery is not covered.) -/
 structure Holds (c : Cfg) : Prop where
   recovers : Recovers c
+  maximal : Maximal c
   appendable : Appendable c
 
 /-! ### The repaired reader: every crash image recovers -/
@@ -179,6 +195,34 @@ theorem recover_total_prefix (c : Cfg) (hc : GoodR c.r) : Recovers c := by
         exact List.prefix_append _ _
       · rw [recover_eq_loadEntries c _ g hg, hload]
 
+/-- every whole block contained in the image is loaded (repaired reader) -/
+theorem recover_maximal (c : Cfg) (hc : GoodR c.r) : Maximal c := by
+  intro mk hmk nl bs acts i j k hcp
+  have hinv := run_inv c mk hmk nl bs acts
+  rcases hinv.shape with ⟨_, hd, _, _⟩ | ⟨evs, hst⟩
+  · left; rw [hd]
+  · right
+    refine ⟨evBlocks evs, by rw [hst.disk], ?_⟩
+    have hops : (runActs c mk nl bs acts).ops = sessionOps nl evs := hst.ops
+    rw [hops] at hcp ⊢
+    obtain ⟨img, himg, _, hshape⟩ := session_crash_image c nl evs i j k hcp
+    rw [himg]
+    intro g hg sb hsb hpre
+    rcases hshape with ⟨hnone, _⟩ | ⟨g', hg', _, hgf⟩
+    · rw [hnone] at hg; cases hg
+    · rw [hg'] at hg; cases hg
+      obtain ⟨m, hm, hload, hmax⟩ := loadFile_prefix_good c.r hc nl (evBlocks evs) hst.wf g hgf
+      refine ⟨entsOf ((evBlocks evs).take m), by rw [recover_eq_loadEntries c _ g hg', hload], ?_⟩
+      have hlen := hmax sb hsb hpre
+      have e : sb = (evBlocks evs).take sb.length := List.prefix_iff_eq_take.mp hsb
+      rw [e]
+      have hp : (evBlocks evs).take sb.length <+: (evBlocks evs).take m := by
+        have h1 : (evBlocks evs).take sb.length = ((evBlocks evs).take m).take sb.length := by
+          rw [List.take_take]; congr 1; omega
+        rw [h1]; exact List.take_prefix _ _
+      obtain ⟨r, hr⟩ := hp
+      rw [← hr, entsOf_append]; exact List.prefix_append _ _
+
 /-- **Writes after a recovery are recoverable (repaired reader and repaired open).**  With an
     `openExistingFile` that cuts a torn tail (and recreates a file whose header never made it to
     disk), a fresh chronicler can write and sync on every crash image, and the next load returns
@@ -236,7 +280,7 @@ theorem append_after_recovery (c : Cfg) (hc : GoodR c.r) (ht : c.truncatesTornTa
 
 /-- C02 holds for the repaired reader and the repaired open. -/
 theorem holds_of_repaired (c : Cfg) (hc : GoodR c.r) (ht : c.truncatesTornTail = true) : Holds c :=
-  ⟨recover_total_prefix c hc, append_after_recovery c hc ht⟩
+  ⟨recover_total_prefix c hc, recover_maximal c hc, append_after_recovery c hc ht⟩
 
 /-! ### The code as it is: closed witnesses -/
 
